@@ -99,7 +99,14 @@ def instr_xml(i, var):
         return "<xsl:text>t</xsl:text>"
     if k == "C":
         return '<xsl:copy-of select="(//*)[%d]"/>' % i["n"]
+    if k == "CA":
+        sel = "(//*)[%d]/@*[name()='%s']" % (i["n"], i["q"])
+        if i.get("copy"):
+            return '<xsl:for-each select="%s"><xsl:copy/></xsl:for-each>' % sel
+        return '<xsl:copy-of select="%s"/>' % sel
     if k == "Y":
+        if i.get("use"):
+            return ('<xsl:for-each select="(//*)[%d]"><xsl:copy use-attribute-sets="%s">' % (i["n"], " ".join("s%d" % u for u in i["use"]))) + "".join(instr_xml(b, var) for b in i["body"]) + "</xsl:copy></xsl:for-each>"
         return ('<xsl:for-each select="(//*)[%d]"><xsl:copy>' % i["n"]) + "".join(instr_xml(b, var) for b in i["body"]) + "</xsl:copy></xsl:for-each>"
 
     def avt(s, computed):
@@ -116,6 +123,8 @@ def instr_xml(i, var):
         s = '<xsl:element name="%s"' % avt(i["name"], i.get("cn"))
         if i["ns"] is not None:
             s += ' namespace="%s"' % avt(i["ns"], i.get("cs"))
+        if i.get("use"):
+            s += ' use-attribute-sets="%s"' % " ".join("s%d" % u for u in i["use"])
         return s + ">" + "".join(instr_xml(b, var) for b in i["body"]) + "</xsl:element>"
     if k == "L":
         s = "<" + i["name"]
@@ -125,6 +134,8 @@ def instr_xml(i, var):
             s += ' %s="%s"' % (q, esc(v))
         if i["excl"]:
             s += ' xsl:exclude-result-prefixes="%s"' % " ".join(p if p else "#default" for p in i["excl"])
+        if i.get("use"):
+            s += ' xsl:use-attribute-sets="%s"' % " ".join("s%d" % u for u in i["use"])
         if not i["body"]:
             return s + "/>"
         return s + ">" + "".join(instr_xml(b, var) for b in i["body"]) + "</" + i["name"] + ">"
@@ -142,10 +153,18 @@ def case_xsl(c):
     s += '><xsl:output method="xml" indent="no"/>'
     for sp, rp in c.get("aliases", []):
         s += '<xsl:namespace-alias stylesheet-prefix="%s" result-prefix="%s"/>' % (sp or "#default", rp or "#default")
+    for n, aset in enumerate(c.get("sets", [])):
+        s += '<xsl:attribute-set name="s%d">' % n + "".join(instr_xml(a, []) for a in aset) + "</xsl:attribute-set>"
     s += '<xsl:template match="/">'
     for n, v in enumerate(var):
         s += '<xsl:variable name="v%d" select="\'%s\'"/>' % (n, v)
     return s + body + "</xsl:template></xsl:stylesheet>"
+
+
+def use_tokens(i):
+    """use-attribute-sets of xsl:element / xsl:copy: a pseudo first child `U n k*`"""
+    u = i.get("use", [])
+    return ["U", str(len(u))] + [str(x) for x in u] if u else []
 
 
 def instr_tokens(i):
@@ -154,15 +173,19 @@ def instr_tokens(i):
         return ["T"]
     if k == "C":
         return ["C", str(i["n"])]
+    if k == "CA":
+        return ["CA", str(i["n"]), i["q"]]
     if k == "Y":
-        t = ["Y", str(i["n"]), str(len(i["body"]))]
+        u = use_tokens(i)
+        t = ["Y", str(i["n"]), str(len(i["body"]) + (1 if u else 0))] + u
         for b in i["body"]:
             t += instr_tokens(b)
         return t
     if k == "A":
         return ["A", i["name"], "1" if i["ns"] is not None else "0", tok(i["ns"] or ""), tok(i["value"])]
     if k == "E":
-        t = ["E", i["name"], "1" if i["ns"] is not None else "0", tok(i["ns"] or ""), str(len(i["body"]))]
+        u = use_tokens(i)
+        t = ["E", i["name"], "1" if i["ns"] is not None else "0", tok(i["ns"] or ""), str(len(i["body"]) + (1 if u else 0))] + u
         for b in i["body"]:
             t += instr_tokens(b)
         return t
@@ -175,6 +198,8 @@ def instr_tokens(i):
             t += [q, tok(v)]
         t.append(str(len(i["excl"])))
         t += [ptok(p) for p in i["excl"]]
+        t.append(str(len(i.get("use", []))))
+        t += [str(u) for u in i.get("use", [])]
         t.append(str(len(i["body"])))
         for b in i["body"]:
             t += instr_tokens(b)
@@ -192,6 +217,12 @@ def case_tokens(c):
     t.append(str(len(al)))
     for sp, rp in al:
         t += [ptok(sp), ptok(rp)]
+    sets = c.get("sets", [])
+    t.append(str(len(sets)))
+    for aset in sets:
+        t.append(str(len(aset)))
+        for a in aset:
+            t += [a["name"], "1" if a["ns"] is not None else "0", tok(a["ns"] or ""), tok(a["value"])]
     t += src_tokens(c["src"], {})
     t.append(str(len(c["body"])))
     for b in c["body"]:
@@ -220,8 +251,17 @@ def valid(c):
         if scope[sp] in seen_alias or scope[sp] == scope[rp]:
             return False          # one alias per stylesheet URI, no identity alias
         seen_alias.add(scope[sp])
-    nsrc = len(src_index(c["src"]))
-    for n, sc in src_index(c["src"]):
+    nsets = len(c.get("sets", []))
+    for aset in c.get("sets", []):
+        for a in aset:
+            ap, _ = split(a["name"])
+            if a["k"] != "A" or a.get("cn") or a.get("cs") or a["name"] == "xmlns" or ap == "xmlns":
+                return False
+            if a["ns"] is None and ap and ap != "xml" and ap not in scope:
+                return False
+    srcs_v = src_index(c["src"])
+    nsrc = len(srcs_v)
+    for n, sc in srcs_v:
         for q in [n["name"]] + [a for a, _ in n["atts"]]:
             p, _ = split(q)
             if p and p not in sc:
@@ -232,8 +272,14 @@ def valid(c):
 
     def ok(i, sc, in_elem):
         k = i["k"]
+        if any(not (0 <= u < nsets) for u in i.get("use", [])):
+            return False
         if k == "T":
             return True
+        if k == "CA":
+            if not in_elem or not (1 <= i["n"] <= nsrc):
+                return False
+            return any(q == i["q"] for q, _ in srcs_v[i["n"] - 1][0]["atts"])
         if k in ("C", "Y"):
             if not (1 <= i["n"] <= nsrc):
                 return False
@@ -323,6 +369,27 @@ def expected(c):
             e["kids"].append(copy_src(k, s2, iid))
         return e
 
+    def apply_sets(i, e):
+        # XSLT 7.1.4: the attributes of the used sets are added first (later additions replace them); their names
+        # are expanded in the context of the xsl:attribute inside the (top-level) xsl:attribute-set
+        for u in i.get("use", []):
+            for a in c.get("sets", [])[u]:
+                iid = counter[0]
+                counter[0] += 1
+                p, l = split(a["name"])
+                if a["ns"] is not None:
+                    name = (a["ns"], l)
+                elif p == "xml":
+                    name = (XML, l)
+                elif p:
+                    name = (scope0[p], l)
+                    if scope0[p] in amap:
+                        feats.add("aliasAttr")
+                else:
+                    name = ("", l)
+                e["atts"][name] = a["value"]
+                e["attsrc"][name] = iid
+
     def run(body, sc, excl, parent):
         for i in body:
             k = i["k"]
@@ -354,6 +421,16 @@ def expected(c):
                 parent["atts"][name] = i["value"]
                 parent["attsrc"][name] = iid
                 continue
+            if k == "CA":
+                n, s = srcs[i["n"] - 1]
+                ap, aloc = split(i["q"])
+                uri = XML if ap == "xml" else (s[ap] if ap else "")
+                val = dict(n["atts"])[i["q"]]
+                if parent is None or parent.get("closed"):
+                    continue          # no start tag pending: the attribute is ignored (error recovery)
+                parent["atts"][(uri, aloc)] = val
+                parent["attsrc"][(uri, aloc)] = iid
+                continue
             if k == "C":
                 n, s = srcs[i["n"] - 1]
                 # scope of the *parent* of n: recompute by passing the node's own scope (decls re-applied harmlessly)
@@ -362,6 +439,7 @@ def expected(c):
                 n, s = srcs[i["n"] - 1]
                 p, l = split(n["name"])
                 e = {"name": (s.get(p, ""), l), "atts": {}, "kids": [], "id": iid, "kind": "Y", "attsrc": {}}
+                apply_sets(i, e)
                 run(i["body"], sc, excl, e)
             elif k == "E":
                 p, l = split(i["name"])
@@ -370,6 +448,7 @@ def expected(c):
                 else:
                     name = (sc.get(p, ""), l)
                 e = {"name": name, "atts": {}, "kids": [], "id": iid, "kind": "E", "attsrc": {}}
+                apply_sets(i, e)
                 run(i["body"], sc, excl, e)
             elif k == "L":
                 s2 = dict(sc)
@@ -392,6 +471,15 @@ def expected(c):
                 # stylesheet side of an xsl:namespace-alias is replaced by the result side
                 e = {"name": (al(s2.get(p, "")), l), "atts": {}, "kids": [], "id": iid, "kind": "L", "attsrc": {},
                      "excluded": ex2, "aliased": set(amap)}
+                apply_sets(i, e)
+                litp = set(split(q)[0] for q, _ in i["atts"]) - {""}
+                for u in i.get("use", []):
+                    for a in c.get("sets", [])[u]:
+                        sp = split(a["name"])[0]
+                        if a["ns"] is not None and sp in litp and a["ns"] != s2.get(sp):
+                            # the set's attribute runs before the literal attributes are added and may re-bind, on this
+                            # element, a prefix that a literal attribute uses (known finding)
+                            feats.add("setRebindsAttrPrefix")
                 for q, v in i["atts"]:
                     ap, aloc = split(q)
                     uri = XML if ap == "xml" else (al(s2[ap]) if ap else "")
@@ -491,7 +579,17 @@ def gen_case(r, size=None):
             aliases.append((sp, rp))
     src = gen_src(r, P)
     nsrc = len(src_index(src))
+    src_attrs = [(n + 1, q) for n, (nd, _sc) in enumerate(src_index(src)) for q, _v in nd["atts"]]
+    pref = [x for x in src_attrs if ":" in x[1]]
+    if pref:
+        src_attrs = src_attrs + pref + pref      # favour namespaced attributes
     budget = [size if size is not None else r.range(2, 9)]
+    nsets = [0]
+
+    def pick_use():
+        if nsets[0] and r.chance(1, 3):
+            return [r.below(nsets[0]) for _ in range(r.range(1, 2))]
+        return []
 
     def qname(sc, allow_default=True, new_prefix_ok=False):
         avail = [p for p in sc if p and sc[p] != XSLT]
@@ -512,17 +610,25 @@ def gen_case(r, size=None):
             kinds = [("L", 6), ("E", 6), ("T", 1), ("C", 2), ("Y", 2)]
             if in_elem and (not had_child or r.chance(1, 12)):
                 kinds.append(("A", 9))
+                if src_attrs:
+                    kinds.append(("CA", 3))
             if depth >= 3:
-                kinds = [(k, w) for k, w in kinds if k in ("A", "T", "C")] or [("T", 1)]
+                kinds = [(k, w) for k, w in kinds if k in ("A", "T", "C", "CA")] or [("T", 1)]
             if depth == 0:
                 kinds = [("L", 3), ("E", 2)]     # exactly one document element
             k = r.weighted(kinds)
-            if k == "T":
+            if k == "CA":
+                n, q = r.choice(src_attrs)
+                i = {"k": "CA", "n": n, "q": q}
+                if r.chance(1, 3):
+                    i["copy"] = True
+                out.append(i)
+            elif k == "T":
                 out.append({"k": "T"}); had_child = True
             elif k == "C":
                 out.append({"k": "C", "n": r.range(1, nsrc)}); had_child = True
             elif k == "Y":
-                out.append({"k": "Y", "n": r.range(1, nsrc), "body": body(depth + 1, sc, True)}); had_child = True
+                out.append({"k": "Y", "n": r.range(1, nsrc), "use": pick_use(), "body": body(depth + 1, sc, True)}); had_child = True
             elif k == "A":
                 ns = None
                 p = qname(sc)
@@ -545,12 +651,19 @@ def gen_case(r, size=None):
                         p = r.choice(P + [""])
                     if ns == "" and r.chance(4, 5):
                         p = ""          # namespace="" with a prefixed name is a known deviation: keep it rare
-                i = {"k": "E", "name": (p + ":" if p else "") + r.choice(LOC), "ns": ns}
+                i = {"k": "E", "name": (p + ":" if p else "") + r.choice(LOC), "ns": ns, "use": pick_use()}
                 if r.chance(1, 6):
                     i["cn"] = True
                 if ns is not None and r.chance(1, 6):
                     i["cs"] = True
                 i["body"] = body(depth + 1, sc, True)
+                if ns not in (None, "") and p == "" and depth < 3 and r.chance(1, 4):
+                    # a default namespace that only exists at run time (declared by this xsl:element) and an
+                    # unprefixed xsl:element namespace="" below it: xmlns="" must be emitted
+                    inner = {"k": "E", "name": r.choice(LOC), "ns": "", "body": []}
+                    if r.chance(1, 2):
+                        inner["body"] = [{"k": "E", "name": r.choice(LOC), "ns": None, "body": []}]
+                    i["body"] = [b for b in i["body"] if b["k"] in ("A", "CA")] + [inner] + [b for b in i["body"] if b["k"] not in ("A", "CA")]
                 out.append(i); had_child = True
             elif k == "L":
                 decls = []
@@ -572,11 +685,41 @@ def gen_case(r, size=None):
                     seen.add(q); seen.add(key)
                     atts.append((q, "w" + str(r.below(9))))
                 excl = [e for e in s2 if e != "xsl" and r.chance(1, 8)]
-                i = {"k": "L", "name": (p + ":" if p else "") + r.choice(LOC), "decls": decls, "atts": atts, "excl": excl}
+                availp = [x for x in s2 if x and s2[x] != XSLT]
+                if len(availp) >= 2 and r.chance(1, 8):
+                    # several differently-prefixed attributes whose prefixes are all excluded: every one of the
+                    # prefixes must stay declared (AVTPrefixChecker::isActive looks at all attributes)
+                    atts = []
+                    seen = set()
+                    for ap in r.shuffle(availp)[:r.range(2, 3)]:
+                        q = ap + ":" + r.choice(ALOC)
+                        key = (s2[ap], split(q)[1])
+                        if key in seen:
+                            continue
+                        seen.add(key)
+                        atts.append((q, "w" + str(r.below(9))))
+                    excl = sorted(set(excl) | set(split(q)[0] for q, _ in atts))
+                i = {"k": "L", "name": (p + ":" if p else "") + r.choice(LOC), "decls": decls, "atts": atts, "excl": excl,
+                     "use": pick_use()}
                 i["body"] = body(depth + 1, s2, True)
                 out.append(i); had_child = True
         return out
-    c = {"rootdecls": rootdecls, "rootexcl": rootexcl, "aliases": aliases, "src": src, "body": body(0, sc0, False)}
+    sets = []
+    if r.chance(1, 3):
+        for _ in range(r.range(1, 2)):
+            aset = []
+            for _ in range(r.range(1, 2)):
+                avail0 = [p for p in sc0 if p and p != "xsl"]
+                ap = r.choice(avail0) if avail0 and r.chance(1, 2) else ""
+                ns = None
+                if r.chance(1, 2):
+                    ns = r.choice(URI)
+                    if r.chance(1, 2):
+                        ap = r.choice(P + [""])
+                aset.append({"k": "A", "name": (ap + ":" if ap else "") + r.choice(ALOC), "ns": ns, "value": "u" + str(r.below(9))})
+            sets.append(aset)
+    nsets[0] = len(sets)
+    c = {"rootdecls": rootdecls, "rootexcl": rootexcl, "aliases": aliases, "sets": sets, "src": src, "body": body(0, sc0, False)}
     return c
 
 
@@ -589,6 +732,8 @@ def instr_list(c):
             if i["k"] == "T":
                 continue
             out.append(i)
+            for u in i.get("use", []):
+                out.extend(c.get("sets", [])[u])
             go(i.get("body", []))
     go(c["body"])
     return out
@@ -601,6 +746,8 @@ def describe(i):
     if k in ("A", "E"):
         p, _ = split(i["name"])
         return "%s[%s,ns=%s]" % (k, "pfx" if p else "nopfx", "none" if i["ns"] is None else ("empty" if i["ns"] == "" else "uri"))
+    if k == "CA":
+        return "CA[%s]" % ("pfx" if split(i["q"])[0] else "nopfx")
     return k
 
 
@@ -630,7 +777,7 @@ def shrink_candidates(c):
             lst, idx = get(c3, path)
             lst[idx:idx + 1] = node["body"]
             out.append(c3)
-        for fld in ("decls", "atts", "excl"):
+        for fld in ("decls", "atts", "excl", "use"):
             for j in range(len(node.get(fld, []))):
                 c4 = copy.deepcopy(c)
                 lst, idx = get(c4, path)
